@@ -41,7 +41,12 @@ type closure struct {
 	Env []value
 }
 
-type FloatV struct{ F float64 }
+// FloatV is a float64. Sym, when set, is the 64-bit integer term this float was converted from (the float is then
+// only carried around and converted back; arithmetic on it is inconclusive). Exact for |x| < 2^53 (harnesses assume it).
+type FloatV struct {
+	F   float64
+	Sym *Term
+}
 
 // Str is an immutable string value of concrete length with (possibly symbolic) bytes.
 // Opaque strings stand for formatted text with symbolic arguments: they can be passed around but not inspected.
@@ -158,7 +163,7 @@ func (in *Exec) zero(t types.Type) value {
 			return Str{}
 		}
 		if t.Info()&types.IsFloat != 0 {
-			return FloatV{0}
+			return FloatV{}
 		}
 		if t.Kind() == types.UnsafePointer {
 			return (*value)(nil)
@@ -233,7 +238,7 @@ func (in *Exec) constValue(c *ssa.Const) value {
 			}
 			return in.tb.Const(w, c.Uint64())
 		case b.Info()&types.IsFloat != 0:
-			return FloatV{c.Float64()}
+			return FloatV{F: c.Float64()}
 		case b.Kind() == types.UnsafePointer:
 			return (*value)(nil)
 		}
@@ -382,7 +387,11 @@ func (in *Exec) equals(t types.Type, x, y value) *Term {
 	case *Term:
 		return tb.Eq(x, y.(*Term))
 	case FloatV:
-		return tb.Bool(x.F == y.(FloatV).F)
+		yf := y.(FloatV)
+		if x.Sym != nil || yf.Sym != nil {
+			return tb.Eq(in.floatInt(x), in.floatInt(yf))
+		}
+		return tb.Bool(x.F == yf.F)
 	case Str:
 		ys := y.(Str)
 		if x.Opaque || ys.Opaque {
@@ -624,3 +633,15 @@ func desc(sb *strings.Builder, v value, d int) {
 func f32(f float64) float64 { return float64(float32(f)) }
 
 var _ = math.Inf
+
+// floatInt returns the integer term of an int-derived (or integral constant) float.
+func (in *Exec) floatInt(f FloatV) *Term {
+	if f.Sym != nil {
+		return f.Sym
+	}
+	if f.F == math.Trunc(f.F) && math.Abs(f.F) < 1<<62 {
+		return in.tb.Const(64, uint64(int64(f.F)))
+	}
+	in.inconclusive("comparison of a symbolic float with a non-integral constant")
+	return nil
+}
